@@ -133,6 +133,17 @@ def build(w):
                 qc.add_measurement(g["meas"], targets=g["targets"], classical_store=g["cs"])
             elif g.get("raw"):
                 qc.add_gate(Gate(g["name"], targets=g["targets"], controls=g["controls"], arg_value=g["arg"]))
+            elif g.get("form") == "class":
+                # an instance of the library class of that name, handed to add_gate as an object
+                from qutip_qip.operations import GATE_CLASS_MAP
+                kw = {k: v for k, v in (("targets", g["targets"]), ("controls", g["controls"]), ("arg_value", g["arg"]))
+                      if v is not None}
+                qc.add_gate(GATE_CLASS_MAP[g["name"]](**kw))
+            elif g.get("form") == "moved":
+                # the gate object of another circuit
+                other = QubitCircuit(w["N"], num_cbits=3)
+                other.add_gate(g["name"], targets=g["targets"], controls=g["controls"], arg_value=g["arg"])
+                qc.add_gate(other.gates[0])
             else:
                 kw = {}
                 if g["cc"] is not None:
@@ -684,6 +695,23 @@ def chain_histories(N, full=True):
                                                                                     rt("linear", "adjacent"), rt("linear")]}}
 
 
+def form_circuits(N):
+    """(form, setup, gate list): the OBJECT FORM of a well-formed handled gate - a generic Gate object carrying the name
+    (`raw`), an instance of the library class, the gate object of another circuit - on every ordered pair"""
+    for name in MODEL_NAMES:
+        for a, b in itertools.permutations(range(N), 2):
+            g = single(N, "", name, a, b)["gates"][0]
+            for setup in ("linear", "circular"):
+                yield "generic", setup, [dict(g, raw=True)]
+                yield "class", setup, [dict(g, form="class")]
+                yield "moved", setup, [dict(g, form="moved")]
+    if N >= 3:
+        a, b = 0, N - 1
+        for setup in ("linear", "circular"):
+            yield "mixed", setup, [dict(h2("CNOT", a, b), raw=True), h2("CNOT", b, a), dict(h2("ISWAP", a, b), form="class"),
+                                   dict(h2("CSIGN", b, a), form="moved")]
+
+
 def conditioned_circuits(N):
     """(kind, gate list): handled gates carrying a classical condition, alone and fed by a measurement"""
     for a, b in itertools.permutations(range(N), 2):
@@ -1009,6 +1037,14 @@ class C07(PropertyCheck):
             n_hist += len(ws)
             self._compare(ctx, res, ws, lambda w: (any(self._far(c) for c in w["history"]),
                                                    ["history", "history=" + w["_kind"], f"calls={len(w['history'])}"]))
+        # the object form of the gates (the router dispatches on gate.name)
+        n_form = 0
+        for N in range(2, (8 if ctx.thorough else 6) + 1):
+            ws = [dict(circ(N, setup, gates), _kind=form) for form, setup, gates in form_circuits(N)]
+            n_form += len(ws)
+            self._compare(ctx, res, ws, lambda w: (self._far(w), ["forms", "form=" + w["_kind"], f"setup={w['setup']}"]))
+        res.notes.append(f"object forms: {n_form} circuits whose handled gates are generic Gate objects carrying the name, "
+                         "library class instances or gate objects of another circuit (every ordered pair, every handled name)")
         # the returned circuit edited through its gate list and routed again
         ch = [x for N in range(3, (7 if ctx.thorough else 5) + 1) for x in chain_histories(N)]
         self._compare_chain_histories(ctx, res, ch)
@@ -1104,6 +1140,9 @@ class C07(PropertyCheck):
         for N in range(3, min(hist_maxN, 6) + 1):
             for kind, w in chain_histories(N, full=hist_maxN > 5):
                 yield w
+        for N in range(2, 5):
+            for form, setup, gates in form_circuits(N):
+                yield circ(N, setup, gates)
 
     def oracle_search(self, ctx, budget_s):
         t0 = time.time()
